@@ -45,16 +45,17 @@ type ppath struct {
 }
 
 type pg struct {
-	t         *rapid.T
-	rs        *sch.RSchema
-	env       sch.REnv
-	slipsLeft int
-	slips     []string
-	caps      map[string]bool
-	paths     []ppath
-	extAsCall bool       // extension values only through constructor calls (never NodeValue literals)
-	prevWhen  []*ir.Expr // guards moved to an earlier `when` by the prev-when slip
-	strictish bool       // avoid constructs strict mode always rejects (empty set literals)
+	t          *rapid.T
+	rs         *sch.RSchema
+	env        sch.REnv
+	slipsLeft  int
+	slips      []string
+	caps       map[string]bool
+	paths      []ppath
+	extAsCall  bool       // extension values only through constructor calls (never NodeValue literals)
+	prevWhen   []*ir.Expr // guards moved to an earlier `when` by the prev-when slip
+	prevUnless []*ir.Expr // guards moved to an earlier `unless`
+	strictish  bool       // avoid constructs strict mode always rejects (empty set literals)
 }
 
 func (g *pg) slip(kind string) bool {
@@ -540,6 +541,10 @@ func (g *pg) guarded(d int) *ir.Expr {
 	case g.slip("guard-in-previous-when"):
 		g.prevWhen = append(g.prevWhen, conj(gs))
 		return body
+	case g.slip("guard-in-previous-unless"):
+		// `unless { guard } when { body }`: the later clause runs exactly when the guard was false
+		g.prevUnless = append(g.prevUnless, conj(gs))
+		return body
 	case g.slip("tag-attribute-lookalike"):
 		if last.tag {
 			gs[len(gs)-1] = ir.Has(last.base.Clone(), "__tag:"+last.attr)
@@ -892,10 +897,13 @@ func GenPolicy(rt *rapid.T, rs *sch.RSchema, env sch.REnv, extAsCall bool, cache
 	g.scopes(p)
 	n := rapid.IntRange(1, 2).Draw(rt, "nconds")
 	for i := 0; i < n; i++ {
-		g.prevWhen = nil
+		g.prevWhen, g.prevUnless = nil, nil
 		body := g.boolE(rapid.IntRange(2, 4).Draw(rt, "depth"))
 		for _, pw := range g.prevWhen {
 			p.Conds = append(p.Conds, ir.Cond{When: true, Body: pw})
+		}
+		for _, pu := range g.prevUnless {
+			p.Conds = append(p.Conds, ir.Cond{When: false, Body: pu})
 		}
 		when := gen.Chance(rt, 80, "when")
 		p.Conds = append(p.Conds, ir.Cond{When: when, Body: body})
